@@ -140,9 +140,18 @@ HAnswer(x, m) ==
   /\ msgs' = [msgs EXCEPT ![x] = IF Known(Tgt(x), m) THEN @ \ {m} ELSE (@ \ {m}) \cup {[m EXCEPT !.st = "sent"]}]
   /\ out' = [a |-> "Answer", d |-> m.d, res |-> "None"]
   /\ UNCHANGED <<doc, revs, seq, dseq, running, cursor, ckpt>>
+(* the pulling / pushed-to peer REFUSES an obsolete tombstone whose document has moved on at the source (observed on the real
+   code: the interior tombstone is serialised with a top-level `_deleted` property, 404 - NOTES.md): the message has no effect *)
+HRefuse(x, m) ==
+  /\ running /\ m \in msgs[x] /\ m.st = "sent" /\ m.rv.del
+  /\ Id(doc[Src(x)][m.d]) # Id(m.rv)
+  /\ msgs' = [msgs EXCEPT ![x] = @ \ {m}]
+  /\ out' = [a |-> "Refuse", d |-> m.d, res |-> "None"]
+  /\ UNCHANGED <<doc, revs, seq, dseq, running, cursor, ckpt>>
+(* one revision in flight per direction: enough to explain what phase replay can observe, and it keeps the search small *)
 CHidden == /\ l <= TraceLen /\ l' = l /\ running /\ KeepCfg
-           /\ \E x \in dirs : \/ ImplOffer(x)
-                              \/ \E m \in msgs[x] : HAnswer(x, m) \/ ImplApply(x, m)
+           /\ \E x \in dirs : \/ msgs[x] = {} /\ ImplOffer(x)
+                              \/ \E m \in msgs[x] : HAnswer(x, m) \/ ImplApply(x, m) \/ HRefuse(x, m)
            /\ out'.res # "starved"
            /\ sync' = FALSE /\ UNCHANGED <<pool, twrote, edits, stops, reruns, rerun, snap, swapped, devd, hist, obs, rr, caught, devc>>
 CSync == /\ Ev("Sync") /\ KeepCfg
